@@ -1036,7 +1036,7 @@ def soak(ctx, res, stats, nproc=3, nthreads=3, nrounds=150, npop=60):
     stats['soak_pops'] = len(popped)
     import warnings
     with warnings.catch_warnings():
-        warnings.simplefilter('ignore')
+        warnings.simplefilter('always')
         ws = [str(w.message) for w in c.check() if not issubclass(w.category, diskcache.EmptyDirWarning)]
     if ws:
         res.violations.append(fw.Violation('soak_check_warns', 'soak: check() after quiescence reports %r' % ws[:2], case))
